@@ -37,8 +37,10 @@ func vfTextKV(n int) {
 		want, alt := "", ""
 		switch form {
 		case 0:
-			args, want = []string{"SET", "s", "ab"}, "+OK\r\n"
-			kv.has["s"], kv.val["s"] = true, "ab"
+			// two arbitrary bytes (binary-safe values): the replies that echo them are compared symbolically
+			v := vfString("v"+string(rune('0'+i)), 2)
+			args, want = []string{"SET", "s", v}, "+OK\r\n"
+			kv.has["s"], kv.val["s"] = true, v
 		case 1:
 			args, want = []string{"SET", "s", ""}, "+OK\r\n"
 			kv.has["s"], kv.val["s"] = true, ""
